@@ -1,6 +1,7 @@
 """C17 -- a failing callback leaves the explainer's estimates untouched (rule ORDER).
 
-On every path of every explanation entry point (loops unrolled 0/1/2 times, helpers inlined) no
+On every path of every explanation entry point (helpers inlined; loops by a fixpoint dataflow over the effect
+tree, plus explicit path enumeration with loops taken 0/1 times as a cross-check) no
 *commit* (mutation of estimate state) precedes a *fallible* event (call through the model, loss,
 imputer or storage field), and no fallible event sits in a try whose handler absorbs the exception.
 Roles are inferred from the constructors (validators, annotations, tracker constructors).
@@ -122,7 +123,7 @@ def check(run):
             fq = f"{cls.name}.{method}"
             run.analysed_fn(fq)
             try:
-                ps = paths(s.events, unroll=2)
+                ps = paths(s.events, unroll=1, limit=5000)
             except ir.Unsupported as e:         # nested explicit loops: the fixpoint dataflow below decides alone
                 ps = []
                 run.notes.setdefault("path_enumeration_skipped", []).append(f"{fq}: {e}")
